@@ -85,7 +85,7 @@ def run(tier, seed):
     n = 1500 if tier == "quick" else 15000
     rs = []
     for _ in range(n):
-        s = gen.random_scenario(rnd, {"meta", "ctl", "dyn", "db"}, nclauses=3, depth=rnd.choice([2, 3]))
+        s = gen.random_scenario(rnd, {"meta", "ctl", "dyn", "db", "rich"}, nclauses=3, depth=rnd.choice([2, 3]))
         s["py"] = True
         rs.append(s)
     for i in range(0, n, 4000):
